@@ -929,6 +929,11 @@ def run(ctx):
     info = {}
     for r in (C10.rule_X1, C10.rule_X2, C10.rule_X3, C10.rule_X4, C10.rule_X5):
         imported(ctx, r, info)
+    # the cluster table the commands read from the trace is the one the run stored, under the key and on the chain
+    # they look at (same rule object as C11.A5)
+    from . import C11
+
+    imported(ctx, C11.rule_A5)
 
 
 # ----------------------------------------------------------------------------- self-test catalogue
